@@ -136,7 +136,7 @@ Proof.
     apply andb_true_iff in Hv. tauto. }
   change (@nil evtok) with (literal []).
   rewrite escape_run; [|exact Hv1|intros _; exact Hv2].
-  destruct Hd as [->|[->|[->|->]]]; reflexivity.
+  destruct Hd as [ -> | [ -> | [ -> | -> ] ] ]; reflexivity.
 Qed.
 
 Example escape_roundtrip_nonvacuous :
